@@ -61,7 +61,7 @@ let field pre fs =
   | Some s -> unhex (String.sub s n (String.length s - n))
   | None -> []
 
-let cur_pyd = ref [] and cur_pym = ref []
+let cur_pyd = ref [] and cur_pym = ref [] and cur_pre = ref []
 
 let model (f : string list) : string =
   let pyd = !cur_pyd and pym = !cur_pym in
@@ -132,18 +132,33 @@ let model (f : string list) : string =
             (hex p.p_server_time)
         | _ -> "panic")
      | _ -> "panic")
+  | "wsig" :: mode :: a :: key :: pmac :: _id :: _qr :: _qname :: _qtype :: _rrs :: rest ->
+    let key = unhex key and pmac = unhex pmac in
+    let hm = table_hmac key pyd pym in
+    let p = prepared_of (take 6 rest) in
+    let pre = !cur_pre in
+    let a = alg_of a in
+    let tm = match mode with
+      | "rq" -> TmRequest (a, key) | "rs" -> TmResponse (a, pmac, key) | "sb" -> TmSubsequent (a, pmac, key)
+      | "un" -> TmUnsigned (alg_name a) | _ -> failwith "bad mode" in
+    (match finish_tsig hm pre tm p with
+     | Res.Ok (rdata, mac) ->
+       Printf.sprintf "ok pre=%s owner=%s type=250 class=255 ttl=0 rdata=%s mac=%s" (hex pre) (hex p.p_key_name)
+         (hex rdata) (match mac with Some m -> hex m | None -> "none")
+     | Res.Err e -> "err " ^ verr_name e
+     | Res.Panic -> "panic")
   | _ -> failwith "bad case line"
 
 let oracle (_ : string list) : string = "-"
 
 let is_meta s =
   let pre p = String.length s >= String.length p && String.sub s 0 (String.length p) = p in
-  pre "pyd=" || pre "pym=" || pre "X:" || pre "T:"
+  pre "pyd=" || pre "pym=" || pre "X:" || pre "T:" || pre "pre="
 
 let () = run_lines (fun f0 ->
   let pyd = field "pyd=" f0 and pym = field "pym=" f0 in
   let f = Stdlib.List.filter (fun s -> not (is_meta s)) f0 in
-  cur_pyd := pyd; cur_pym := pym;
+  cur_pyd := pyd; cur_pym := pym; cur_pre := field "pre=" f0;
   miss := false;
   let m = model f in
   let m = if !miss then m ^ " hmac-miss" else m in
